@@ -430,7 +430,8 @@ _NUMBER2 = C('Number', 'from_value', N('2.50'))
 _MUL1 = C('NumberMulExpr', 'from_children', T(_NUMBER), T())
 _ADD1 = C('NumberAddExpr', 'from_children', T(_MUL1), T())
 _PAREN = C('NumberParenExpr', 'from_children',
-           C('NumberAddExpr', 'from_children', T(_MUL1, _MUL1), T(C('AddOp', 'from_raw_text', S('-')))))
+           C('NumberAddExpr', 'from_children', T(_MUL1, C('NumberMulExpr', 'from_children', T(_NUMBER2), T())),
+             T(C('AddOp', 'from_raw_text', S('-')))))
 _UNARY = C('NumberUnaryExpr', 'from_children', C('UnaryOp', 'from_raw_text', S('-')), _NUMBER)
 _UNARY2 = C('NumberUnaryExpr', 'from_children', C('UnaryOp', 'from_raw_text', S('+')), _UNARY)
 ATOMS = [_NUMBER, _NUMBER2, _PAREN, _UNARY, _UNARY2,
